@@ -53,7 +53,9 @@ extern "C" void h_c05_half_space(unsigned long surf, unsigned long mode)
   const Point<3> pos(sym_f64("x"), sym_f64("y"), sym_f64("z"), cartesian); const Objects::NaturalCoordinate nc(pos, *w->parameters.coordinate_system);
   const double depth = sym_f64("depth"), old = sym_f64("Told"), g = sym_f64("gravity");
   sym_assume(depth >= 0);
+  sym_freeze(); sym_allow(&env); sym_allow(&ridge);
   const double T = m->OT::HalfSpaceModel::get_temperature(pos, nc, depth, g, old, sym_f64("fmin"), sym_f64("fmax"));
+  sym_assert(sym_writes() == 0, "the model query stores only to fresh memory");
   if (!in_model_range(m, depth, surf)) { sym_assert(sym_eq(T, old), "outside its own range the model returns the incoming value"); sym_reach("end-out"); return; }
   const double Tb = m->bottom_temperature >= 0 ? m->bottom_temperature : adiabat(w, g, depth);          // negative => adiabat at this depth
   const double age = ridge.dist / ridge.vel;                                                      // ridge distance over spreading velocity
@@ -127,7 +129,9 @@ extern "C" void h_c05_plate_model(unsigned long surf, unsigned long constant_age
       auto *m = build<OT::PlateModelConstantAge>(w, coords, surf);
       const Objects::NaturalCoordinate nc(pos, *w->parameters.coordinate_system);
       depth = sym_f64("depth"); old = sym_f64("Told"); g = sym_f64("gravity"); sym_assume(depth >= 0 && m->max_depth > 0);
+      sym_freeze(); sym_allow(&env); sym_allow(&ridge);
       T = m->OT::PlateModelConstantAge::get_temperature(pos, nc, depth, g, old, 0, 0);
+      sym_assert(sym_writes() == 0, "the model query stores only to fresh memory");
       in = in_model_range(m, depth, surf);
       Tb = m->bottom_temperature >= 0 ? m->bottom_temperature : adiabat(w, g, depth);
       value = in ? plate_series(m, w, depth, Tb, true, 0., m->plate_age) : 0.;
@@ -138,7 +142,9 @@ extern "C" void h_c05_plate_model(unsigned long surf, unsigned long constant_age
       auto *m = build<OT::PlateModel>(w, coords, surf);
       const Objects::NaturalCoordinate nc(pos, *w->parameters.coordinate_system);
       depth = sym_f64("depth"); old = sym_f64("Told"); g = sym_f64("gravity"); sym_assume(depth >= 0 && m->max_depth > 0);
+      sym_freeze(); sym_allow(&env); sym_allow(&ridge);
       T = m->OT::PlateModel::get_temperature(pos, nc, depth, g, old, 0, 0);
+      sym_assert(sym_writes() == 0, "the model query stores only to fresh memory");
       in = in_model_range(m, depth, surf);
       Tb = m->bottom_temperature >= 0 ? m->bottom_temperature : adiabat(w, g, depth);
       value = in ? plate_series(m, w, depth, Tb, false, ridge.vel, ridge.dist / ridge.vel) : 0.;
